@@ -210,8 +210,8 @@ prop(
          "a cell = (operator, verdicts) / pool fill class / relay event",
     sizes=tiers(16, 120, 60, 16, 800, 900, min_evals=1500, min_cells=12),
     technique="runtime monitoring: reference verdict by construction, FIFO-with-limit pool model, exactly-once checker per (peer id, hash) over RecNet's relay log, cycles equality across estimate / pool / relay",
-    level_text="On a synced client whose chain deploys the always-success script: valid transactions (incl. chains spending outputs of pending ones, beyond the pool limit of 64) are accepted by send_transaction and estimate_cycles with the same cycles, every mutant (capacity overflow, duplicated / unknown input, unknown dep, immature since, output below occupied capacity, script code missing, duplicated dep, garbage dep group, no outputs) is rejected by both and stays unknown and unrelayed, the pool equals a FIFO-with-limit model with members reported pending, each pending hash is announced at most once per peer id, and GetRelayTransactions serves only pool members with the estimated cycles.",
-    level_note="the two relay branches that need tentacle's ServiceControl (open / close protocol) are not reachable with the recording network context; script verification itself (ckb-script) is trusted",
+    level_text="On a synced client whose chain deploys the always-success script and, in half of the scenarios, the real secp256k1_blake160_sighash_all lock (bundled system script; transactions signed by the harness, so the verdict depends on the witness: flipped signature bit, other key, missing signature, and same-hash variants of a pending transaction with a corrupted signature or an oversized witness are rejected and leave the pending entry byte-identical): valid transactions (incl. chains spending outputs of pending ones, beyond the pool limit of 64) are accepted by send_transaction and estimate_cycles with the same cycles, every mutant (capacity overflow, duplicated / unknown input, unknown dep, immature since, output below occupied capacity, script code missing, duplicated dep, garbage dep group, no outputs) is rejected by both and stays unknown and unrelayed, the pool equals a FIFO-with-limit model with members reported pending, each pending hash is announced at most once per peer id, and GetRelayTransactions serves only pool members with the estimated cycles.",
+    level_note="the two relay branches that need tentacle's ServiceControl (open / close protocol) are not reachable with the recording network context; script verification itself (ckb-script, the bundled secp256k1 binary) is trusted",
 )
 
 prop(
